@@ -18,7 +18,7 @@ PARAMS = {
     7: "t_ns",
     8: "tz8",
     9: "u0_undeclared",   # used by the undefined-POI fault
-    10: "u10", 11: "u11", 12: "u12", 13: "u13", 14: "u14", 15: "u15",
+    10: "u10", 11: "u11", 12: "u12", 13: "u13", 14: "u14", 15: "u15", 16: "u16", 17: "u17", 18: "u18",
     21: "v_stat_1", 22: "v_stat_2", 23: "v_stat_3",
 }
 TYPES = {1: "histosys", 2: "lumi", 3: "normfactor", 4: "normsys", 5: "shapefactor", 6: "shapesys", 7: "staterror"}
